@@ -66,12 +66,25 @@ def profile_grammar(r, ledger):
     stmts = g.grammar()
     if g.ncmd == 0:
         stmts.append(gast.call('cmd', gast.seq(gast.lit('withcmd'), g.new_cmd(), gast.lit('after'))))
-    if r.random() < 0.5:
+    if r.random() < 0.6:
         nm = 'BSPEC'
         stmts.append(gast.defn(nm, 'bash', g.new_cmd()))
         if r.random() < 0.5:
             stmts.append(gast.defn(nm, 'fish', gast.cmd('echo fishy')))
-        stmts.append(gast.call('cmd', gast.seq(gast.lit('spec'), gast.nt(nm), gast.opt(gast.lit('tail')))))
+        if r.random() < 0.5:
+            # a plain command definition next to the bash-specific one: the bash one must be what runs
+            stmts.append(gast.defn(nm, None, g.new_cmd()))
+        ref = gast.nt(nm)
+        where = r.random()
+        if where < 0.3:
+            ref = gast.fb(ref, gast.lit('zzz'))
+        elif where < 0.45:
+            ref = gast.fb(gast.lit('zzz'), ref)
+        elif where < 0.6:
+            ref = gast.many(gast.alt(gast.lit('more'), ref))
+        elif where < 0.7:
+            ref = gast.opt(ref)
+        stmts.append(gast.call('cmd', gast.seq(gast.lit('spec'), ref, gast.opt(gast.lit('tail')))))
     return stmts
 
 
